@@ -93,6 +93,11 @@ def _canon(doc, sort, out):
                 out.append(b",")
             _canon(v, sort, out)
         out.append(b"]}")
+    elif isinstance(doc, Bad):
+        # an inconsistency the driver's dump noticed (a key listed by keys()
+        # that cannot be looked up ...): shown, never equal to anything
+        out.append(b'{"BAD":' + jstr(str(doc.why).encode("latin-1",
+                                                         "replace")) + b"}")
     else:
         raise TypeError("not a document: %r" % (doc,))
 
